@@ -320,7 +320,7 @@ static Token *read_utf32_string_literal(char *start, char *quote, Type *ty) {
 
 static Token *read_char_literal(char *start, char *quote, Type *ty) {
   char *p = quote + 1;
-  if (*p == '\0')
+  if (*p == '\0' || *p == '\n')
     error_at(start, "unclosed char literal");
 
   int c;
